@@ -139,6 +139,9 @@ func applyImpl(m object.Map, o Op) (res object.Map, err error) {
 		if !ok {
 			return nil, fmt.Errorf("Rest() returned %T", r)
 		}
+		if m.Len() <= 1 {
+			return nil, fmt.Errorf("Rest() of a %d-pair map is %s, not nil (it is nil for the other representation)", m.Len(), r.Inspect())
+		}
 		return rm, nil
 	case "range":
 		r := object.Range(m, int64(o.L), int64(o.R))
